@@ -1,6 +1,7 @@
 import Capella.Lemmas.Decl
 import Capella.Lemmas.DeclCE2
 import Capella.Lemmas.DeclOrder2
+import Capella.Lemmas.DeclAttr2
 
 /-!
 # C12 — declarative modelling resolves promises independently of declaration order
@@ -382,6 +383,35 @@ theorem duplicate_fails_in_every_order {mm : MM} {g : Graph} {doc doc' : List In
   have hperm : declTotal doc' p = declTotal doc p := (docN_perm hp).symm
   omega
 
+/-! ## scalar attribute values
+
+`atomsHead`: attribute values are plain strings, `!promise` or `!uuid` (a `!find` is evaluated against the
+model of its moment), attribute names of one object description are distinct (a YAML mapping), no plain-string
+children; `FreshDoc`: the ids of the creation sites are pairwise distinct and not in the graph (they stand for
+freshly drawn UUIDs); `ScalDom g` / distinct keys: the initial graph is well formed. -/
+
+/-- **The attribute values are part of the conserved effects**: after a successful `apply` the scalar
+entries of the graph are exactly those it had plus, for every object description, its simple attributes
+with every `!promise` value replaced by the object that declares the promise — nothing is lost, nothing
+is written twice, whatever was deferred on the way. -/
+theorem attribute_values_conserved {mm : MM} {sc : Str → Option Str → Str} {pm : Str → Option Id} {g : Graph}
+    {doc : List Instr} {g' : Graph} {ps' : Promises} (hdoc : DocCE True pm doc)
+    (hat : ∀ i ∈ doc, i.all atomsHead (fun _ => True)) (hfresh : FreshDoc sc pm g doc) (hdom : ScalDom g)
+    (hnd : (g.scal.map Prod.fst).Nodup) (h : apply mm g doc = .ok (g', ps')) :
+    (∀ G, sumBy G g'.scal = sumBy G g.scal + docA pm G doc) ∧ (g'.scal.map Prod.fst).Nodup :=
+  apply_attrs hdoc hat hfresh hdom hnd h
+
+/-- **Any two successful orders give every attribute of every object the same value** (reference-valued
+attributes set through promises included) — for every metamodel. Together with `C12_partial_any`: the two
+results agree in objects, list members up to order, promise bindings and all scalar attributes. -/
+theorem C12_scalars {mm : MM} {sc : Str → Option Str → Str} {pm : Str → Option Id} {g : Graph}
+    {doc doc' : List Instr} {r r' : Graph × Promises} (hdoc : DocCE True pm doc)
+    (hat : ∀ i ∈ doc, i.all atomsHead (fun _ => True)) (hfresh : FreshDoc sc pm g doc) (hdom : ScalDom g)
+    (hnd : (g.scal.map Prod.fst).Nodup) (hp : doc.Perm doc')
+    (h : apply mm g doc = .ok r) (h' : apply mm g doc' = .ok r') :
+    ∀ i k, r.1.getScal i k = r'.1.getScal i k :=
+  scalars_order_independent (g1 := r.1) (ps1 := r.2) (g2 := r'.1) (ps2 := r'.2) hdoc hat hfresh hdom hnd hp h h'
+
 /-! ## non-vacuity -/
 
 /-- the witness is a create/extend document, both orders succeed, `K` is bound to its declarer (13) -/
@@ -407,6 +437,15 @@ example : CleanDoc witnessGraph witness := by
   rcases hi with rfl | rfl <;>
     simp [Instr.all, kidsAll, itemsAll, Item.all, cleanHead, cleanQ, Val.cleanRef, Val.cleanScal, Atom.okIn] <;> decide
 example : (MM.free []).Total := total_free []
+/-- the witness satisfies the hypotheses of `C12_scalars`; in both orders `C1.super` is the declarer of `K` -/
+example : (∀ i ∈ witness, i.all atomsHead (fun _ => True)) ∧ ScalDom witnessGraph := by
+  refine ⟨?_, by intro e he; simp [witnessGraph] at he⟩
+  intro i hi
+  simp only [witness, List.mem_cons, List.mem_nil_iff, or_false] at hi
+  rcases hi with rfl | rfl <;> simp [Instr.all, kidsAll, itemsAll, Item.all, atomsHead, s] <;> decide
+example : (match apply (MM.free []) witnessGraph witness, apply (MM.free []) witnessGraph witness.reverse with
+    | .ok r, .ok r' => some (r.1.getScal 10 (s "super"), r'.1.getScal 10 (s "super"))
+    | _, _ => none) = some (some (.obj 13), some (.obj 13)) := by decide
 /-- … and a dangling reference fails in both orders, a cyclic pair of promises fails as unfulfilled -/
 example : (match apply (MM.free []) witnessGraph [witness.head!] with | .error e => some e | .ok _ => none)
     = some (.unfulfilled [s "K"]) := by decide
